@@ -136,6 +136,9 @@ bool vp_combinators(int x, int* p, vp_S sv, char const* str)
   r = param_matches(MEMBER_IS(&vp_S::m, vp_abs<1>{}), std::ref(sv)) && r;
   r = param_matches(re("a"), std::ref(str)) && r;
   r = param_matches(eq(nullptr), std::ref(p)) && param_matches(ne(nullptr), std::ref(p)) && param_matches(nullptr, std::ref(p)) && r;
+  double d = x;
+  r = param_matches(eq(1.0), std::ref(d)) && param_matches(ne(1.0), std::ref(d)) && param_matches(lt(1.0), std::ref(d)) && r;
+  r = param_matches(le(1.0), std::ref(d)) && param_matches(gt(1.0), std::ref(d)) && param_matches(ge(1.0), std::ref(d)) && r;
   std::string stdstr(str);
   r = param_matches(re("a"), std::ref(stdstr)) && r;
   return r;
@@ -149,6 +152,25 @@ int vp_reth(trompeloeil::trace_agent& agent, trompeloeil::call_params_type_t<int
 {
   trompeloeil::return_handler_t<int(int), vp_retfn> h{vp_retfn{}};
   return h.call(agent, params);
+}
+
+// building an expectation: the code the REQUIRE_CALL macros expand to (call_matcher constructor, IN_SEQUENCE registration,
+// RT_TIMES limits incl. the low > high exception, RETURN handler, make_expectation / hook_last), then its release
+std::unique_ptr<trompeloeil::expectation> vp_build(vp_M& m, trompeloeil::sequence& s, size_t lo, size_t hi)
+{
+  return NAMED_REQUIRE_CALL(m, f(trompeloeil::_)).IN_SEQUENCE(s).RT_TIMES(lo, hi).RETURN(0);
+}
+std::unique_ptr<trompeloeil::expectation> vp_build_plain(vp_M& m)
+{
+  return NAMED_REQUIRE_CALL(m, f(trompeloeil::_)).RETURN(0);
+}
+std::unique_ptr<trompeloeil::expectation> vp_build_forbid(vp_M& m)
+{
+  return NAMED_FORBID_CALL(m, f(trompeloeil::_));
+}
+void vp_build_objects()
+{
+  vp_M m; trompeloeil::sequence s;
 }
 
 // range matchers over a C array (C11, partial): elements are abstract operand matchers / plain values
